@@ -18,7 +18,7 @@
     offset >= 0; [unit_op] = slice with step None/1 or rc; [abs_window],
     [box_matches], [abs_of_view], [view_spans]. *)
 From CG3 Require Import Lib.PyZ Lib.Val Lib.PySlice Model.View Spec.ViewSpec Proofs.ViewSeqProofs.
-From CG3 Require Import Model.Annot Model.AnnotRun Spec.AnnotSpec Proofs.AnnotProofs.
+From CG3 Require Import Model.Annot Model.AnnotRun Spec.AnnotSpec Proofs.AnnotProofs Proofs.AnnotCoordsProofs.
 
 (** * the db side *)
 
@@ -96,6 +96,33 @@ Theorem history_irrelevant : forall fx p off ops v0 v f fv,
   get_slice_str v p fv = Ok (denoted p off (parent_start v) (parent_stop v) f).
 Proof. exact history_irrelevant_lemma. Qed.
 
+(** seq.copy() (the parent is cut down to the displayed segment, the view is
+    re-based, the annotation offset becomes the old parent_start; [apply_op
+    Fixed _ CopySliced] is the C01 model of it): the copy is again a contiguous
+    view, reports the same absolute segment and orientation, and every feature
+    denotes the same residues on it *)
+Theorem copy_preserves : forall v p hid s', contig v -> 0 < vlen v -> zlen p = seq_len v ->
+  apply_op Fixed (mkS v p KDna hid) CopySliced = Ok s' ->
+  contig (sv s') /\ vlen (sv s') = vlen v /\ zlen (parent s') = seq_len (sv s') /\
+  parent_start (sv s') = parent_start v /\ parent_stop (sv s') = parent_stop v /\
+  is_reversed (sv s') = is_reversed v /\
+  forall f, denoted (parent s') (offset (sv s')) (parent_start v) (parent_stop v) f
+          = denoted p (offset v) (parent_start v) (parent_stop v) f.
+Proof. exact copy_preserves_lemma. Qed.
+
+(** HEADLINE 3: any history of unit-step slices, reverse complements and
+    copies, of any depth, from a sequence with any annotation offset: a
+    feature handed back on the final view has strand = db strand xor view
+    orientation and its slice is the ORIGINAL parent's residues at the
+    feature's absolute positions inside the segment the final view displays *)
+Theorem history_with_copies : forall fx p0 off0 ops v0 v p f fv,
+  0 <= off0 -> mk_view (zlen p0) None None None off0 = Ok v0 ->
+  Forall unit_hop ops -> fold_left apply_hop ops (Ok (v0, p0)) = Ok (v, p) -> 0 < vlen v ->
+  spans_ok 0 (f_spans f) -> feature_on_view fx v f = Ok fv ->
+  fv_minus fv = xorb (f_minus f) (is_reversed v) /\
+  get_slice_str v p fv = Ok (denoted p0 off0 (parent_start v) (parent_stop v) f).
+Proof. exact history_with_copies_lemma. Qed.
+
 (** old-style Feature.get_slice / seq[feature] is that plain reading; so is
     the new-style one once [_mapped] is repaired *)
 Theorem get_slice_old : forall fx v p fv, get_slice fx OldSeq v p fv = get_slice_str v p fv.
@@ -164,6 +191,32 @@ Theorem slice_coords_refuted :
     slice_coords all_fixed NewSeq v p fv = Ok (Some (4, 8, 1)).
 Proof. exact slice_coords_refuted_lemma. Qed.
 
+(** repaired [_mapped]: for every contiguous view, either orientation, either
+    sequence class, a one-span feature lying inside the view: its slice
+    (seq[feature], reverse complemented for a minus-strand feature) reports
+    exactly the feature's own absolute coordinates and strand - so annotation
+    queries on the slice see the right residues *)
+Theorem slice_coords_repaired : forall fx i v p f fv a b, fx_mapped fx = true ->
+  contig v -> 0 < vlen v -> zlen p = seq_len v ->
+  f_spans f = [(a, b)] -> 0 <= a -> parent_start v <= a -> a < b -> b <= parent_stop v ->
+  feature_on_view fx v f = Ok fv ->
+  slice_coords fx i v p fv = Ok (Some (a, b, if f_minus f then -1 else 1)).
+Proof. exact slice_coords_repaired_lemma. Qed.
+
+(** the two view facts behind it: [v[a:b]] displays the absolute segment of the
+    displayed indices a..b-1, and rc() keeps the segment and flips the strand *)
+Theorem unit_slice_parent_coords : forall v a b v', contig v -> 0 <= a < b -> b <= vlen v ->
+  getitem_slice FSeqView v (Some a) (Some b) None = Ok v' ->
+  contig v' /\ vlen v' = b - a /\ is_reversed v' = is_reversed v /\
+  parent_start v' = (if is_reversed v then parent_stop v - b else parent_start v + a) /\
+  parent_stop v' = (if is_reversed v then parent_stop v - a else parent_start v + b).
+Proof. exact unit_slice_coords. Qed.
+
+Theorem rc_parent_coords : forall v, contig v -> 0 < vlen v ->
+  exists w, getitem_slice FSeqView v None None (Some (-1)) = Ok w /\ contig w /\ vlen w = vlen v /\
+    parent_start w = parent_start v /\ parent_stop w = parent_stop v /\ is_reversed w = negb (is_reversed v).
+Proof. exact rc_contig. Qed.
+
 (** * add_feature through a view *)
 
 (** repaired add_feature: the record stored in the db carries the absolute
@@ -176,6 +229,23 @@ Theorem add_feature_coords : forall fx v spans minus, fx_add fx = true -> contig
     Ok (mkF (abs_of_view v spans) (xorb minus (is_reversed v)),
         shift_spans (parent_start v) (abs_of_view v spans), xorb minus (is_reversed v)).
 Proof. exact add_feature_coords_lemma. Qed.
+
+(** HEADLINE 4 (repaired add_feature, end to end): for every contiguous view
+    (either orientation, any offset / history), sorted spans in view
+    coordinates and either strand: the Feature handed back is the one a later
+    query of the same view builds from the stored record, its strand relative
+    to the view is the one given, and its slice is the parent's residues at the
+    absolute coordinates of the displayed positions the spans point at *)
+Theorem add_feature_end_to_end : forall fx v p spans minus rec msp mm fv,
+  fx_add fx = true -> contig v -> 0 < vlen v -> zlen p = seq_len v ->
+  spans_ok 0 spans -> view_spans (vlen v) spans ->
+  add_feature fx v spans minus = Ok (rec, msp, mm) ->
+  make_feature fx (vlen v) (is_reversed v) msp mm = Ok fv ->
+  f_spans rec = abs_of_view v spans /\
+  feature_on_view fx v rec = Ok fv /\
+  fv_minus fv = minus /\
+  get_slice_str v p fv = Ok (denoted p (offset v) (parent_start v) (parent_stop v) rec).
+Proof. exact add_feature_end_to_end_lemma. Qed.
 
 (** pinned add_feature stores the view coordinates unchanged: the record does
     not denote the residues pointed at, and a query on the very view the
